@@ -604,8 +604,47 @@ theorem C01.pending_backed (h : List Step) :
 /-- Errors dominate: with at least two answers of which one is an error, the response is the
 error of all error answers, in link (column) order. -/
 theorem C01.join_errors_dominate (a b : Ans) (cs : List Ans) (h : (a :: b :: cs).filterMap errOf ≠ []) :
-    join (a :: b :: cs) = .err ((a :: b :: cs).filterMap errOf) := by
+    join (a :: b :: cs) = .err ((a :: b :: cs).filterMap errOf).flatten := by
   simp only [join, h, ne_eq, not_false_eq_true, if_true]
+
+/-- **Every error leaf is kept.**  When some reader answered with an error, the joined response
+carries, in link (column) order, every leaf of every erroring reader: a leaf `e` is in the
+response exactly when some answer carries it – a plain error, the `dropped packet` stand-in of a
+reader that closed (`Ans.dropped = .err 0`), or one of the leaves of a relayed joined error – and
+the leaves of an earlier column come before those of a later one.  (Seeded change c01l threw away
+every error collected before a joined one.) -/
+theorem C01.join_keeps_every_error_leaf (a b : Ans) (cs : List Ans) (h : (a :: b :: cs).filterMap errOf ≠ []) :
+    (∀ e, (∃ es, join (a :: b :: cs) = .err es ∧ e ∈ es) ↔ ∃ x ∈ a :: b :: cs, ∃ l, errOf x = some l ∧ e ∈ l) ∧
+    (∀ pre x post l, a :: b :: cs = pre ++ x :: post → errOf x = some l →
+      ∃ es, join (a :: b :: cs) = .err es ∧ (pre.filterMap errOf).flatten ++ l <+: es) := by
+  have hj := C01.join_errors_dominate a b cs h
+  constructor
+  · intro e
+    rw [hj]
+    constructor
+    · rintro ⟨es, he, hm⟩
+      injection he with he
+      rw [← he] at hm
+      simp only [List.mem_flatten, List.mem_filterMap] at hm
+      obtain ⟨l, ⟨x, hx, hl⟩, hel⟩ := hm
+      exact ⟨x, hx, l, hl, hel⟩
+    · rintro ⟨x, hx, l, hl, hel⟩
+      refine ⟨_, rfl, ?_⟩
+      simp only [List.mem_flatten, List.mem_filterMap]
+      exact ⟨l, ⟨x, hx, hl⟩, hel⟩
+  · intro pre x post l hsplit hl
+    refine ⟨_, hj, ?_⟩
+    rw [hsplit]
+    simp only [List.filterMap_append, List.filterMap_cons, hl, List.flatten_append, List.flatten_cons]
+    rw [← List.append_assoc]
+    exact List.prefix_append _ _
+
+/-- Non-vacuity: reader 0 closed before answering (`dropped`), reader 1 answers a payload, reader 2
+relays a joined error of two leaves, reader 3 a plain error: all four leaves, in link order. -/
+theorem C01.join_keeps_every_error_leaf_nonvacuous :
+    join [.dropped, .val 1, .errs [5, 6], .err 9] = .err [0, 5, 6, 9] ∧
+    join [.err 3, .errs [5, 6, 7]] = .err [3, 5, 6, 7] ∧ join [.errs [5, 6]] = .err [5, 6] := by
+  decide
 
 /-- Without errors, empty answers vanish and the payloads form a list in link (column) order
 (a single payload is passed through, none at all gives the empty response). -/
